@@ -71,7 +71,25 @@ func descendants(n *disk.Node, path string, out map[string]bool) {
 
 // apply performs the edit on disk and adds every created, deleted or modified
 // path to touched. clock provides strictly increasing mtimes.
+// throughLink tells whether a proper prefix of the root-relative path is a
+// symbolic link: an edit there would land somewhere else than the path says,
+// and the path reported as changed would be wrong.
+func throughLink(root, path string) bool {
+	comps := strings.Split(path, "/")
+	cur := root
+	for _, c := range comps[:len(comps)-1] {
+		cur = filepath.Join(cur, c)
+		if fi, err := os.Lstat(cur); err != nil || fi.Mode()&os.ModeSymlink != 0 {
+			return true
+		}
+	}
+	return false
+}
+
 func apply(root string, e *Edit, clock *int64, touched map[string]bool) error {
+	if throughLink(root, e.Path) || (e.To != "" && throughLink(root, e.To)) {
+		return nil
+	}
 	full := filepath.Join(root, filepath.FromSlash(e.Path))
 	before, _ := disk.Observe(full)
 	*clock++
